@@ -582,7 +582,9 @@ struct Dumper {
               J.value(Names[V]);
               J.value(DVI->getVariable()->getName());
               J.value(isa<DbgDeclareInst>(DVI) ? "declare" : "value");
-              J.value((int64_t)DVI->getVariable()->getArg());
+              // variables of inlined callees carry the callee's argument numbers: they are not parameters of F
+              bool Inlined = DVI->getDebugLoc() && DVI->getDebugLoc()->getInlinedAt();
+              J.value((int64_t)(Inlined ? 0 : DVI->getVariable()->getArg()));
             });
           }
       });
